@@ -32,6 +32,7 @@ class Machine:
         self.subject = None
         self.slots = []
         self.delivered = []
+        self._shared_args = {}
         self.pre_hook = None      # called on every freshly built Indicator object BEFORE it is registered / calculated
 
     # ------------------------------------------------------------------ construction
@@ -73,6 +74,14 @@ class Machine:
         inds, given = [], []
         for k, m in enumerate(members):
             form = (forms or {}).get(k, "object")
+            if m.get("shared_args"):
+                # a configuration dict whose "args" value is ONE dict object shared with another member of this
+                # Hexital (the caller wrote the common arguments once), plus loose analysis keywords of its own
+                sa = m["shared_args"]
+                shared = self._shared_args.setdefault(sa["key"], dict(sa["args"]))
+                given.append({"analysis": m["analysis"], "args": shared, **sa["loose"]})
+                inds.append(None)
+                continue
             if form == "dict":
                 given.append(as_dict(m))
                 inds.append(None)
@@ -82,8 +91,21 @@ class Machine:
                     self.pre_hook(obj)
                 given.append(obj)
                 inds.append(obj)
-        hx = Hexital("sim", mk_candles(rows), given, **self.hexital_kwargs())
+        if (self.cfg.get("hexital") or {}).get("add_later"):
+            # built WITHOUT indicators; every member is registered afterwards through add_indicator
+            hx = Hexital("sim", mk_candles(rows), None, **self.hexital_kwargs())
+            for g in given:
+                hx.add_indicator(g)
+        else:
+            hx = Hexital("sim", mk_candles(rows), given, **self.hexital_kwargs())
+        self._shared_args = {}      # the next Hexital built by this machine (a twin) gets dict objects of its own
         objs = list(hx.indicators.values())
+        if len(objs) != len(members):
+            # a freshly built Hexital must list exactly the members it was given (distinct names by construction)
+            from .core import Violation
+
+            raise Violation("registered-members", "hexital", "count",
+                            {"given": len(members), "registered": [o.name for o in objs]})
         slots = [Slot(m, objs[k]) for k, m in enumerate(members)]
         return hx, slots
 
